@@ -7,4 +7,5 @@ CONSTANTS
   FixMid = TRUE
   Tasks = {}
   DbInputs <- MCDbInputs
+  StageInputs <- MCStageInputs
 CHECK_DEADLOCK FALSE
